@@ -43,11 +43,14 @@ class Lock:
 def translate(gens):
     rc, out, _ = sh([sys.executable, os.path.join(ROOT, 'tools', 'translate.py'), '--repo', REPO,
                      '--out', os.path.join(COQ, 'Gen'), '--harness-gen', os.path.join(ROOT, 'harness', 'src', 'gen'),
-                     '--only', ','.join(gens)])
+                     ])
+    # every generator runs on every check (0.3 s): no check ever builds against tables left by an earlier run on
+    # another tree; only the generators this property depends on decide its verdict
     try:
         status = json.loads(out.strip().splitlines()[-1])
     except Exception:
         status = {'_': {'ok': False, 'error': out[-2000:]}}
+    status = {k: v for k, v in status.items() if k in gens or k == '_'}
     bad = {k: v.get('error') for k, v in status.items() if not v.get('ok')}
     return (not bad), bad, status
 
